@@ -331,13 +331,47 @@ def topo(name: str):
         links = [("a", 1, "r1", 1), ("b", 1, "r1", 2)]
         dns_ip = "10.0.9.9"
         ev = _pings(["a", "b"], n) + [("pingip", "a", "10.0.9.9"), ("dns", "a"), ("nic", "b", 1)]
+    elif name in ("fw2", "fw2sw"):
+        # two firewalls in one broadcast domain: a - fw1(external | internal) =10.0.12.0/24= fw2(external | internal) - b;
+        # fw2sw: the shared subnet is a switch (ports fw1, fw2, m) with host m on it.  Every list permits everything.
+        n["a"], n["b"] = _host(A, "10.0.1.1", dns=B), _host(B, "10.0.2.1")
+        n["fw1"] = _router({1: ("10.0.1.1", M24), 2: ("10.0.12.1", M24)}, [("10.0.2.0", M24, "10.0.12.2", 0)], kind="firewall")
+        n["fw2"] = _router({1: ("10.0.12.2", M24), 2: ("10.0.2.1", M24)}, [("10.0.1.0", M24, "10.0.12.1", 0)], kind="firewall")
+        for f in ("fw1", "fw2"):
+            n[f]["acl"] = {k: PERMIT_ALL for k in ("internal_inbound", "internal_outbound", "external_inbound", "external_outbound")}
+        links = [("a", 1, "fw1", 1), ("b", 1, "fw2", 2)]
+        ev = _pings(["a", "b"], n) + [("pingip", "a", "10.0.12.9"), ("pingip", "b", "10.0.12.9"), ("pingip", "a", "10.0.12.2"),
+                                     ("pingip", "b", "10.0.12.1"), ("dns", "a"), ("nic", "fw2", 1), ("pwr", "b")]
+        if name == "fw2":
+            links.append(("fw1", 2, "fw2", 1))
+        else:
+            n["sw"] = {"kind": "switch", "ports": 3}
+            n["m"] = _host("10.0.12.3", "10.0.12.1", dns=B)
+            links += [("fw1", 2, "sw", 1), ("fw2", 1, "sw", 2), ("m", 1, "sw", 3)]
+            ev = _pings(["a", "b", "m"], n) + ev[2:] + [("dns", "m"), ("pwr", "m")]
+    elif name == "noreturn":
+        # r1 knows the way to b's subnet, r2 has no route (and no default) back to a's subnet: nothing a sends beyond r1 is answered
+        n["a"], n["b"] = _host(A, "10.0.1.1", dns=B), _host(B, "10.0.2.1")
+        n["r1"] = _router({1: ("10.0.1.1", M24), 2: ("10.0.12.1", M30)}, [("10.0.2.0", M24, "10.0.12.2", 0)])
+        n["r2"] = _router({1: ("10.0.2.1", M24), 2: ("10.0.12.2", M30)})
+        links = [("a", 1, "r1", 1), ("b", 1, "r2", 1), ("r1", 2, "r2", 2)]
+        ev = _pings(["a", "b"], n) + [("pingip", "a", "10.0.12.2"), ("pingip", "a", "10.0.12.1"), ("pingip", "b", "10.0.12.1"),
+                                     ("dns", "a"), ("nic", "r1", 2), ("pwr", "b")]
+    elif name == "asym":
+        # two parallel /30 links between r1 and r2: r1 routes towards b over link 1 (ports 2), r2 routes back over link 2 (ports 3)
+        n["a"], n["b"] = _host(A, "10.0.1.1", dns=B), _host(B, "10.0.2.1")
+        n["r1"] = _router({1: ("10.0.1.1", M24), 2: ("10.0.12.1", M30), 3: ("10.0.13.1", M30)}, [("10.0.2.0", M24, "10.0.12.2", 0)])
+        n["r2"] = _router({1: ("10.0.2.1", M24), 2: ("10.0.12.2", M30), 3: ("10.0.13.2", M30)}, [("10.0.1.0", M24, "10.0.13.1", 0)])
+        links = [("a", 1, "r1", 1), ("b", 1, "r2", 1), ("r1", 2, "r2", 2), ("r1", 3, "r2", 3)]
+        ev = _pings(["a", "b"], n) + [("pingip", "a", "10.0.13.2"), ("pingip", "b", "10.0.12.1"), ("dns", "a"),
+                                     ("nic", "r2", 3), ("nic", "r1", 2), ("pwr", "b")]
     else:
         raise ValueError(name)
     return {"name": name, "nodes": n, "links": links, "air": air, "dns_host": dns_host, "dns_ip": dns_ip,
             "events": [("tick",)] + [tuple(e) for e in ev]}
 
 
-TOPOS = ["lan", "r1", "r2s", "r2d", "r3s", "r3d", "fw", "sw2r-rrm", "sw2r-mrr", "wifi", "hostnh"]
+TOPOS = ["lan", "r1", "r2s", "r2d", "r3s", "r3d", "fw", "sw2r-rrm", "sw2r-mrr", "wifi", "hostnh", "fw2", "fw2sw", "noreturn", "asym"]
 
 
 def build_net(spec) -> H.SimSut:
@@ -572,7 +606,8 @@ class Runaway(BaseException):
 
 
 class Recorder:
-    def __init__(self):
+    def __init__(self, model=None, net=None):
+        self.model, self.net = model, net  # reference model and live network: the per-hop egress oracle
         self.viols = []
         self.frames = {}   # id(frame) -> {"obj": frame (kept alive), "if_rx": {node: ttl}, "node_rx": {node: ttl}}
         self.depth = 0
@@ -646,6 +681,31 @@ def _cycle_signature():
     return "no-period-found"
 
 
+def _check_egress(rec, node, name, sender, frame):
+    """A router forwards through the interface (and to the next hop) that connected networks / the reference LPM give -
+    whatever its ARP cache has learnt from transit traffic."""
+    dst = str(frame.ip.dst_ip_address)
+    port, nh = rec.model.next_hop(name, dst)
+    site = _impl(node, "process_frame")
+    if port is None:
+        rec.add(violation("forwarded_via_best_route", "%s:forwards-without-a-route" % site,
+                          "%s forwarded a %s frame for %s through port %s although it has no connected network, route or default "
+                          "route for it (%s)" % (name, _fkind(frame), dst, sender.port_num, nh)))
+        return
+    if sender.port_num != port:
+        rec.add(violation("forwarded_via_best_route", "%s:egress-interface-differs" % site,
+                          "%s forwarded a %s frame for %s through port %s; connected networks / longest-prefix route give port %s "
+                          "(next hop %s)" % (name, _fkind(frame), dst, sender.port_num, port, nh)))
+        return
+    own = rec.model.owner.get(nh)
+    if own is not None and rec.net is not None:
+        mac = rec.net.nodes[own[0]].network_interface[own[1]].mac_address
+        if frame.ethernet.dst_mac_addr != mac:
+            rec.add(violation("forwarded_via_best_route", "%s:next-hop-mac-differs" % site,
+                              "%s forwarded a %s frame for %s through port %s to MAC %s; the next hop %s is %s port %s (MAC %s)" % (
+                                  name, _fkind(frame), dst, port, frame.ethernet.dst_mac_addr, nh, own[0], own[1], mac)))
+
+
 def _enter_tx(rec, frame, sender):
     node = getattr(sender, "_connected_node", None)
     name = _nname(node)
@@ -658,6 +718,8 @@ def _enter_tx(rec, frame, sender):
                               "%s port %s put a %s frame with TTL %d on the medium" % (name, sender.port_num, _fkind(frame), ttl)))
         if name in fi["node_rx"]:
             r_node, r_if = fi["node_rx"][name], fi["if_rx"].get(name)
+            if isinstance(node, ROUTERISH) and rec.model is not None and not _fkind(frame).startswith("arp"):
+                _check_egress(rec, node, name, sender, frame)
             if isinstance(node, ROUTERISH):
                 if not ttl < r_node:
                     how = "connected" if frame.ip.dst_ip_address in sender.ip_network else "routed"
@@ -915,7 +977,7 @@ class NetAdapter(engine.Adapter):
         ev = tuple(ev)
         exp, shape, why = self._expect(s, ev)
         warm = self._warm(s, ev) if exp is not None else ""
-        rec = Recorder()
+        rec = Recorder(self.model, s.net)
         out, how = _guard(rec, lambda: self._do(s, ev))
         viols = list(rec.viols)
         if how in ("runaway", "recursion"):
@@ -1010,7 +1072,7 @@ class IcmpIdAdapter(NetAdapter):
             out, viols = NetAdapter.apply(self, s, ev)
         else:
             exp, shape, why = self._expect(s, ("ping",) + ev[1:])
-            rec = Recorder()
+            rec = Recorder(self.model, s.net)
             r, how = _guard(rec, lambda: bool(s.net.nodes[ev[1]].ping(self.spec["nodes"][ev[2]]["ifs"][1][0], pings=2)))
             out, viols = [r if how == "returned" else how, rec.tx, rec.handed], list(rec.viols)
             if exp and r is not True and not viols:
@@ -1029,10 +1091,11 @@ class IcmpIdAdapter(NetAdapter):
 # (topology, depth, state budget, time budget s).  Cheap / defect-dense topologies first.
 QUICK_PLAN = [("lan", 3, 20000, 60), ("r1", 3, 20000, 60), ("r2s", 3, 20000, 60), ("r2d", 3, 20000, 60), ("r3s", 2, 20000, 60),
               ("r3d", 2, 20000, 60), ("fw", 3, 20000, 60), ("sw2r-rrm", 2, 20000, 60), ("sw2r-mrr", 3, 20000, 60), ("wifi", 3, 20000, 60),
-              ("hostnh", 3, 20000, 60)]
+              ("hostnh", 3, 20000, 60), ("fw2", 3, 20000, 60), ("fw2sw", 2, 20000, 60), ("noreturn", 3, 20000, 60), ("asym", 3, 20000, 60)]
 THOROUGH_PLAN = [("lan", 6, 400000, 60), ("r1", 5, 400000, 60), ("r2s", 5, 400000, 60), ("r2d", 5, 400000, 60),
                  ("r3s", 5, 400000, 60), ("r3d", 5, 400000, 60), ("fw", 5, 400000, 60), ("sw2r-rrm", 4, 400000, 60),
-                 ("sw2r-mrr", 4, 400000, 60), ("wifi", 6, 400000, 30), ("hostnh", 8, 400000, 10)]
+                 ("sw2r-mrr", 4, 400000, 60), ("wifi", 6, 400000, 30), ("hostnh", 8, 400000, 10),
+                 ("fw2", 5, 400000, 60), ("fw2sw", 4, 400000, 60), ("noreturn", 6, 400000, 30), ("asym", 5, 400000, 60)]
 # thorough: a level is only started while the time budget (s) is not used up; the last level costs about 3 times everything
 # before it.  Measured: 250k transitions, 160 CPU-minutes in all (about 12 min on 16 free cores); every depth completes when the
 # levels before the last fit into the budget, otherwise the cap is reported.
